@@ -35,23 +35,32 @@ PROPS_FILE = 'theories/Props/C18.v'
 THEOREM = ('C18_* (the theorems of Props/C18.v: the definitions generated from math.py equal '
            'the textbook definitions of Math/Spec.v, for all reals)')
 CASE_TIMEOUT = 10
-RULE = ('case = (method, exact rational entries of the arguments); 82 translated methods '
-        '(all but the four that need cos/sin/atan2) drawn uniformly with extra weight on '
-        '@, ~, cross, lerp, limit, transpose; entries n/d with n in -9..9, d in '
+RULE = ('case = (method, exact entries of the arguments, scripted-math flag); 113 translated '
+        'methods drawn uniformly (each at least twice) with extra weight on @, ~, cross, lerp, '
+        'limit, transpose, rotate, look_at, perspective; entries n/d with n in -9..9, d in '
         '{1,2,3,4,5,8}, 8% zeros; matrices random / near-identity / singular (a row a '
-        'multiple of another, 15%) / small integers; sqrt methods on vectors of rational '
-        'length (Pythagorean tuples scaled by dyadics; normalize/from_magnitude/long limit '
-        'on vectors whose length is a power of two) so that the float arithmetic of the '
-        'real code is exact; orthogonal_projection on boxes whose sides are powers of two; '
-        'limit: short / exactly on the boundary / long; non-trivial = at least two distinct '
-        'non-zero input entries and a result that is not identically zero')
+        'multiple of another) / small integers.  Runs on the unmodified module: sqrt methods '
+        'on vectors of rational length (Pythagorean tuples scaled by dyadics; normalize/'
+        'from_magnitude/long limit on vectors whose length is a power of two), '
+        'orthogonal_projection on boxes with power-of-two sides, from_rotation and the Mat3 '
+        'transforms (which multiply with float literals) on dyadic values and right angles, '
+        'so that binary64 arithmetic is exact.  Runs with the scripted double of `math` '
+        '(exact rational sqrt on squares; angles as tokens t = tan(angle/2), so that cos, sin, '
+        'atan2 and angle addition are rational): all angle methods (from_polar, heading, '
+        'from_heading, rotate, Mat4.rotate, Mat3.rotate, perspective_projection), look_at, '
+        'and 45% of the sqrt cases (any Pythagorean vector, non-dyadic scales).  limit: short '
+        '/ exactly on the boundary / long; __round__ on exact ties, thirds, sevenths, '
+        'thousandths; non-trivial = at least two distinct non-zero input entries and a '
+        'result that is not identically zero')
 TRUSTED = [
     'Coq 8.16.1 kernel; vm_compute for the evaluation over Q',
     'the translator harness/pymath2coq.py and Python\'s ast module (fail closed: a construct '
     'outside its subset makes the generated file uncompilable); validated on every run by '
     'evaluating the generated definitions over Q against the real classes run on Fractions '
-    '(sampled) - except from_polar, from_heading, rotate, heading, which are only tested '
-    'over floats',
+    '(sampled); the methods with angles are run with a scripted double of the `math` '
+    'module (harness/math_shim.py: exact sqrt on squares, angle tokens t = tan(angle/2)) '
+    'whose Coq counterpart is Math/QInst.v; perspective_projection with the default fov=60 '
+    'is only tested over floats',
     'the reading of Python numbers as reals: binary64 rounding, overflow and the error of '
     'math.sqrt/cos/sin/atan2 are NOT modelled (float tests with relative tolerance 1e-9 are '
     'reported separately as tests)',
@@ -71,8 +80,12 @@ ASSUMPTIONS = [
     'exact real arithmetic (binary64 rounding not modelled): PARTIAL with respect to floats',
     'truediv: divisors non-zero; orthogonal_projection: left<>right, bottom<>top, near<>far; '
     'limit: max >= 0; from_magnitude of the zero vector is left open',
-    'not covered by a theorem: __round__, __repr__, perspective_projection, from_rotation, '
-    'rotate (Mat4), scale (Mat3/Mat4), look_at*, row, column, Mat3.translate/rotate/shear',
+    'Mat4.rotate / from_rotation: axis entries in [-1, 1] (the assert of the code); '
+    'perspective_projection: non-degenerate frustum, near <> 0, tan(fov/2) <> 0; look_at: '
+    'target <> position, up not parallel to the direction; Mat3.scale: factors <> 0',
+    'not covered: __repr__; Mat4.look_at_direction (it calls Vec3.cross_product, which does '
+    'not exist: every call raises AttributeError - outside the statement of C18, reported '
+    'to the integrator)',
 ]
 
 MATH_DIR = os.path.join(core.COQ, 'theories', 'Math')
@@ -82,7 +95,9 @@ _STATE = {'refused': [], 'dev_log': '', 'lock': None}
 WEIGHT = {'Mat4.__matmul__/m': 4, 'Mat3.__matmul__/m': 3, 'Mat4.__matmul__/v': 3,
           'Mat3.__matmul__/v': 2, 'Mat4.__invert__': 6, 'Vec3.cross': 3, 'Mat4.transpose': 2,
           'Vec2.lerp': 2, 'Vec3.lerp': 2, 'Vec4.lerp': 2, 'Vec2.limit': 3, 'Vec3.limit': 3,
-          'Mat4.translate': 2, 'Mat4.orthogonal_projection': 2}
+          'Mat4.translate': 2, 'Mat4.orthogonal_projection': 2, 'Mat4.rotate': 4,
+          'Mat4.look_at': 4, 'Mat4.perspective_projection': 3, 'Mat4.from_rotation': 2,
+          'Vec2.rotate': 2, 'Mat4.scale': 2}
 
 
 # --------------------------------------------------------------- contract
@@ -93,7 +108,7 @@ def _oracle():
 
 def gen(rng, tier):
     mo = _oracle()
-    n = {'quick': 420, 'thorough': 4200, 'search': 300}[tier]
+    n = {'quick': 560, 'thorough': 5600, 'search': 300}[tier]
     keys = [k for k in mo.EXACT_KEYS for _ in range(WEIGHT.get(k, 1))]
     cases = []
     # every method at least twice, then weighted
